@@ -394,14 +394,15 @@ func (fg *FunctionGenerator) AccessList(list Value, index Value) (Value, error) 
 			if i < 0 {
 				return nil, fmt.Errorf("negative list index")
 			} else {
-				size, err := l.Size(funcGen.NewEmptyStack[Value]())
+				items, err := l.ToSlice(funcGen.NewEmptyStack[Value]())
 				if err != nil {
 					return nil, err
 				}
+				size := len(items)
 				if int(i) >= size {
 					return nil, fmt.Errorf("index out of bounds %d>=size(%d)", i, size)
 				} else {
-					return l.items[i], nil
+					return items[i], nil
 				}
 			}
 		} else {
